@@ -93,9 +93,73 @@ func c14DurIndex(name string) int {
 }
 
 // ---- MetaClient adapter: what ts-meta's store does for the commands the service sends ------------
+//
+// Fault seam: every call the service makes through its MetaClient is recorded (per retention run) and
+// can be made to fail. A failed call returns an error and leaves the catalogue untouched (the command
+// was not applied, Data.Index does not move). The plan of a run is either "the k-th call of this run
+// fails" (pos), "every call of one method fails" (kind) or "every call fails" (kind "*").
+
+type c14CallRec struct {
+	Method string
+	Arg    string
+	Failed bool
+}
+
+// the methods of the MetaClient the local-storage retention run can reach; the short names appear in op names
+var c14CallKinds = []struct{ Short, Method string }{
+	{"S", "GetShardDurationInfo"},
+	{"I", "GetIndexDurationInfo"},
+	{"DSG", "DeleteShardGroup"},
+	{"DIG", "DeleteIndexGroup"},
+	{"PG", "PruneGroupsCommand"},
+}
+
+type c14FaultPlan struct {
+	Pos  int    // 1-based: the Pos-th catalogue call of the run fails; 0 = none
+	Kind string // every call of this method fails; "*" = every call; "" = none
+}
+
+func (p c14FaultPlan) active() bool { return p.Pos > 0 || p.Kind != "" }
 
 type c14Meta struct {
-	data *meta.Data
+	data  *meta.Data
+	plan  c14FaultPlan
+	calls []c14CallRec // calls of the current retention run, in order
+	fired int          // injected failures of the current run
+}
+
+func (m *c14Meta) arm(p c14FaultPlan) { m.plan, m.calls, m.fired = p, nil, 0 }
+func (m *c14Meta) disarm()            { m.plan = c14FaultPlan{} }
+
+// enter records the call and decides whether it fails under the plan of this run.
+func (m *c14Meta) enter(method, arg string) bool {
+	m.calls = append(m.calls, c14CallRec{Method: method, Arg: arg})
+	n := len(m.calls)
+	if (m.plan.Pos > 0 && n == m.plan.Pos) || (m.plan.Kind != "" && (m.plan.Kind == "*" || m.plan.Kind == method)) {
+		m.calls[n-1].Failed = true
+		m.fired++
+		return true
+	}
+	return false
+}
+
+func c14Injected(method string) error {
+	return fmt.Errorf("C14 injected fault: catalogue call %s failed (not applied)", method)
+}
+
+func (m *c14Meta) fmtCalls() string {
+	var s []string
+	for _, c := range m.calls {
+		x := c.Method
+		if c.Arg != "" {
+			x += "(" + c.Arg + ")"
+		}
+		if c.Failed {
+			x += " FAILED"
+		}
+		s = append(s, x)
+	}
+	return "[" + strings.Join(s, ", ") + "]"
 }
 
 // every applied command advances the catalogue index (raft log index in the real store)
@@ -104,12 +168,22 @@ func (m *c14Meta) bump() { m.data.Index++ }
 func (m *c14Meta) dbPts() map[string][]uint32 { return map[string][]uint32{c14DB: {0}} }
 
 func (m *c14Meta) PruneGroupsCommand(shardGroup bool, id uint64) error {
+	what := "index"
+	if shardGroup {
+		what = "shard"
+	}
+	if m.enter("PruneGroupsCommand", fmt.Sprintf("%s %d", what, id)) {
+		return c14Injected("PruneGroupsCommand")
+	}
 	defer m.bump()
 	return m.data.PruneGroups(shardGroup, id)
 }
 
 // store.getDurationInfo: index guard, Data.DurationInfos, wire codec both ways
 func (m *c14Meta) GetShardDurationInfo(index uint64) (*meta.ShardDurationResponse, error) {
+	if m.enter("GetShardDurationInfo", "") {
+		return nil, errno.NewError(errno.DataIsOlder) // what a lagging ts-meta answers
+	}
 	if m.data.Index < index {
 		return nil, errno.NewError(errno.DataIsOlder)
 	}
@@ -122,6 +196,9 @@ func (m *c14Meta) GetShardDurationInfo(index uint64) (*meta.ShardDurationRespons
 }
 
 func (m *c14Meta) GetIndexDurationInfo(index uint64) (*meta.IndexDurationResponse, error) {
+	if m.enter("GetIndexDurationInfo", "") {
+		return nil, errno.NewError(errno.DataIsOlder)
+	}
 	if m.data.Index < index {
 		return nil, errno.NewError(errno.DataIsOlder)
 	}
@@ -134,11 +211,17 @@ func (m *c14Meta) GetIndexDurationInfo(index uint64) (*meta.IndexDurationRespons
 }
 
 func (m *c14Meta) DeleteShardGroup(database, policy string, id uint64, deleteType int32) error {
+	if m.enter("DeleteShardGroup", fmt.Sprintf("%d", id)) {
+		return c14Injected("DeleteShardGroup")
+	}
 	defer m.bump()
 	return m.data.DeleteShardGroup(database, policy, id, 0, deleteType)
 }
 
 func (m *c14Meta) DeleteIndexGroup(database, policy string, id uint64) error {
+	if m.enter("DeleteIndexGroup", fmt.Sprintf("%d", id)) {
+		return c14Injected("DeleteIndexGroup")
+	}
 	defer m.bump()
 	return m.data.DeleteIndexGroup(database, policy, id)
 }
@@ -249,9 +332,13 @@ type c14Group struct {
 	WalPath    string
 	Points     map[int64]bool // acknowledged points (timestamps)
 
-	ExpiredRuns int  // consecutive retention runs at which the model found it expired
+	ExpiredRuns int  // consecutive fault-free retention runs at which the model found it expired (faulted runs are not counted)
 	Doomed      bool // a deletion of (a part of) it was observed in a run at which it was expired: legitimate
 	Gone        bool // nothing of it is left in catalogue, engine, storage
+	Interrupted bool // it was Doomed and not Gone at the end of a run with an injected catalogue failure
+	// the catalogue attached the group, at its creation, to an index group that already carried a deletion mark
+	// (left behind by a run whose prune call was made to fail): that mark is not a loss suffered by this group
+	IdxBornMarked bool
 }
 
 func (g *c14Group) name(w *c14World) string {
@@ -291,6 +378,7 @@ type c14World struct {
 	eng     *EngineImpl
 	rec     *c14Engine
 	handle  func()
+	rep     *kit.Report
 	t0      time.Time
 	mstName string
 	dm      time.Duration // the duration in force as far as the user was told (model)
@@ -301,6 +389,11 @@ type c14World struct {
 	root    string
 	fail    *c14Fail
 	lastRun string // diagnostics of the last retention run
+	// fault seam: result of the last retention run
+	lastFired   int    // catalogue calls that were made to fail in the last run
+	lastCalls   int    // catalogue calls the last run made
+	lastByKind  map[string]int
+	faultedRuns int
 	// concurrent writers of an Hw step
 	wwg     sync.WaitGroup
 	wmu     sync.Mutex
@@ -369,12 +462,12 @@ func c14AlignClock() time.Time {
 // c14NewWorld builds catalogue + engine + service for one history. d0: initial policy duration;
 // init: "open" (a point at t0 written through the store path) or "cat" (shard group only in the
 // catalogue: the shard is not loaded on this node).
-func c14NewWorld(dir string, d0 int, init string) (*c14World, error) {
+func c14NewWorld(dir string, d0 int, init string, rep *kit.Report) (*c14World, error) {
 	_ = os.RemoveAll(dir)
 	if err := os.MkdirAll(dir, 0o755); err != nil {
 		return nil, err
 	}
-	w := &c14World{dir: dir, root: c14DurNames[d0] + "/" + init}
+	w := &c14World{dir: dir, root: c14DurNames[d0] + "/" + init, rep: rep}
 	w.t0 = c14AlignClock()
 	data, err := c14NewData(c14Durs[d0])
 	if err != nil {
@@ -503,6 +596,23 @@ func (w *c14World) write(ts time.Time, load bool) error {
 	}
 	if g == nil {
 		for _, x := range w.groups {
+			if x.SGID == sg.ID && x.Interrupted && x.Doomed && !x.Gone {
+				// The deletion of x began legitimately (x was expired) in a run whose mark-delete call was made
+				// to fail, so the catalogue still routes to x. A write into data under deletion: the statement is
+				// silent (as for writes concurrent with the deletion). It is executed, counted, and creates no
+				// obligation except that whatever it re-creates falls under the removal obligation of x.
+				w.rep.Count("writes_routed_into_group_under_interrupted_deletion", 1)
+				if load {
+					if err := w.storeWrite(x.ShardID, ts.UnixNano()); err != nil {
+						w.rep.Count("writes_into_group_under_interrupted_deletion_refused", 1)
+					} else if sh := w.dbpt().Shard(x.ShardID); sh != nil {
+						x.Loaded = true
+						x.DataPath = sh.GetDataPath()
+						x.WalPath = sh.GetWalPath()
+					}
+				}
+				return nil
+			}
 			if x.SGID == sg.ID {
 				w.setFail("shard_group_mapping_mismatch", fmt.Sprintf("timestamp %s routed to group %s whose deletion was already observed",
 					c14Rel(w.t0, ts), x.name(w)))
@@ -515,6 +625,10 @@ func (w *c14World) write(ts time.Time, load bool) error {
 			for _, ii := range ig.Indexes {
 				if ii.ID == g.IndexID {
 					g.IGID = ig.ID
+					if !ig.DeletedAt.IsZero() || ii.MarkDelete {
+						g.IdxBornMarked = true
+						w.rep.Count("groups_created_on_index_group_left_marked_by_a_faulted_run", 1)
+					}
 				}
 			}
 		}
@@ -600,7 +714,61 @@ func (w *c14World) startWriters() {
 
 // ---- operations -----------------------------------------------------------------------------------
 
-var c14Ops = []string{"T-1", "T0", "T+1", "TI", "H", "Hw", "A0", "A1/2", "A1", "A2", "Wn", "We", "Wo", "Cn", "Ce"}
+var c14BaseOps = []string{"T-1", "T0", "T+1", "TI", "H", "Hw", "A0", "A1/2", "A1", "A2", "Wn", "We", "Wo", "Cn", "Ce"}
+
+// Fault variants of the retention run (environment choices at the catalogue-client seam):
+//   H!k    handle() with the k-th catalogue call of this run failing, k = 1 .. c14MaxFaultPos
+//   H!<M>  handle() with every call of one MetaClient method failing (S, I, DSG, DIG, PG, see c14CallKinds)
+//   H!*    handle() with every catalogue call failing (catalogue unreachable for the whole run)
+// A variant exists in a state only if its injection fires there (H!k: the run makes >= k calls; H!<M> and
+// H!*: >= 2 calls fail, with one it is the positional variant); otherwise it is the plain H and is cut.
+const c14MaxFaultPos = 24
+
+var c14FaultOps = func() []string {
+	var ops []string
+	for k := 1; k <= c14MaxFaultPos; k++ {
+		ops = append(ops, fmt.Sprintf("H!%d", k))
+	}
+	for _, ck := range c14CallKinds {
+		ops = append(ops, "H!"+ck.Short)
+	}
+	return append(ops, "H!*")
+}()
+
+var c14Ops = append(append([]string{}, c14BaseOps...), c14FaultOps...)
+
+// c14ParseFault: the plan of a fault variant of H; ok=false for every other op.
+func c14ParseFault(op string) (c14FaultPlan, bool) {
+	if !strings.HasPrefix(op, "H!") {
+		return c14FaultPlan{}, false
+	}
+	x := op[2:]
+	if x == "*" {
+		return c14FaultPlan{Kind: "*"}, true
+	}
+	for _, ck := range c14CallKinds {
+		if ck.Short == x {
+			return c14FaultPlan{Kind: ck.Method}, true
+		}
+	}
+	k := 0
+	if _, err := fmt.Sscanf(x, "%d", &k); err == nil && k > 0 && fmt.Sprintf("%d", k) == x {
+		return c14FaultPlan{Pos: k}, true
+	}
+	panic("C14 harness: malformed fault op " + op)
+}
+
+func c14IsRun(op string) bool { return op == "H" || op == "Hw" || strings.HasPrefix(op, "H!") }
+
+func c14FaultOpsIn(path []string) int {
+	n := 0
+	for _, op := range path {
+		if strings.HasPrefix(op, "H!") {
+			n++
+		}
+	}
+	return n
+}
 
 func c14OpIndex(name string) int {
 	for i, n := range c14Ops {
@@ -637,6 +805,10 @@ func (w *c14World) sleepUntil(t time.Time) bool {
 // apply executes one operation; returns false if it is not applicable in this state (treated as a no-op).
 func (w *c14World) apply(op string, rep *kit.Report) bool {
 	now := time.Now()
+	if plan, ok := c14ParseFault(op); ok {
+		w.retentionRun(false, plan, rep)
+		return true
+	}
 	switch op {
 	case "T-1", "T0", "T+1":
 		g := w.oldestLive()
@@ -661,7 +833,7 @@ func (w *c14World) apply(op string, rep *kit.Report) bool {
 				return false // no open shard: identical to H
 			}
 		}
-		w.retentionRun(op == "Hw", rep)
+		w.retentionRun(op == "Hw", c14FaultPlan{}, rep)
 		return true
 	case "A0", "A1/2", "A1", "A2":
 		d := c14Durs[map[string]int{"A0": 0, "A1/2": 1, "A1": 2, "A2": 3}[op]]
@@ -710,9 +882,11 @@ func (w *c14World) apply(op string, rep *kit.Report) bool {
 	panic("C14 harness: unknown op " + op)
 }
 
-// retentionRun calls the real Service.handle and evaluates the run.
-func (w *c14World) retentionRun(withWriters bool, rep *kit.Report) {
+// retentionRun calls the real Service.handle and evaluates the run. plan: the catalogue calls of this run
+// that are made to fail (zero value: none).
+func (w *c14World) retentionRun(withWriters bool, plan c14FaultPlan, rep *kit.Report) {
 	w.rec.reset(withWriters)
+	w.mc.arm(plan)
 	before := time.Now()
 	dRun := w.dm
 	var panicked string
@@ -724,11 +898,21 @@ func (w *c14World) retentionRun(withWriters bool, rep *kit.Report) {
 		}()
 		w.handle()
 	}()
+	w.mc.disarm()
 	if withWriters {
 		w.wwg.Wait()
 	}
 	after := time.Now()
 	w.runs++
+	w.lastFired, w.lastCalls = w.mc.fired, len(w.mc.calls)
+	w.lastByKind = map[string]int{}
+	for _, c := range w.mc.calls {
+		w.lastByKind[c.Method]++
+	}
+	faulted := w.mc.fired > 0
+	if faulted {
+		w.faultedRuns++
+	}
 	if panicked != "" {
 		w.setFail("panic_in_retention_run", panicked)
 		return
@@ -739,16 +923,21 @@ func (w *c14World) retentionRun(withWriters bool, rep *kit.Report) {
 		if !tRun.Equal(before) {
 			rep.Count("runs_clock_moved_before_decision", 1)
 		}
-	} else {
+	} else if !faulted {
 		rep.Count("runs_without_expiry_evaluation", 1)
 	}
 	if !after.Equal(before) {
 		rep.Count("runs_clock_moved", 1)
 		rep.Max("max_run_clock_drift_ms", int64(after.Sub(before)/time.Millisecond))
 	}
-	w.lastRun = fmt.Sprintf("run#%d at %s (returned at %s) duration in force %s; ExpiredShards -> %v (not loaded: %v), ExpiredIndexes -> %v, deletions %v, durations pushed %v",
-		w.runs, c14Rel(w.t0, tRun), c14Rel(w.t0, after), dRun, w.rec.expired, w.rec.nilIDs, w.rec.idxExpired, w.fmtDels(), w.rec.seenDur)
-	// model: which groups are expired at this run
+	w.lastRun = fmt.Sprintf("run#%d at %s (returned at %s) duration in force %s; catalogue calls %s; ExpiredShards -> %v (not loaded: %v), ExpiredIndexes -> %v, deletions %v, durations pushed %v",
+		w.runs, c14Rel(w.t0, tRun), c14Rel(w.t0, after), dRun, w.mc.fmtCalls(), w.rec.expired, w.rec.nilIDs, w.rec.idxExpired, w.fmtDels(), w.rec.seenDur)
+	if !w.rec.called {
+		w.lastRun += "; the run ended before it asked for expired shards"
+	}
+	// model: which groups are expired at this run. A run with a failed catalogue call may delete what is
+	// expired (and nothing else) but is not obliged to complete anything: it does not count towards the
+	// "expired at two consecutive runs => gone" obligation.
 	inS := map[*c14Group]bool{}
 	for _, g := range w.groups {
 		if g.Gone {
@@ -756,12 +945,21 @@ func (w *c14World) retentionRun(withWriters bool, rep *kit.Report) {
 		}
 		if dRun != 0 && g.End.Add(dRun).Before(tRun) { // end + duration < now, strictly
 			inS[g] = true
-			g.ExpiredRuns++
+			if !faulted {
+				g.ExpiredRuns++
+			}
 		} else if !g.Doomed {
 			g.ExpiredRuns = 0
 		}
 	}
-	w.observe(true, inS, tRun, dRun, rep)
+	w.observe(true, !faulted, inS, tRun, dRun, rep)
+	if faulted {
+		for _, g := range w.groups {
+			if g.Doomed && !g.Gone {
+				g.Interrupted = true
+			}
+		}
+	}
 	// The deterministic part of the verdict comes first; what happened to the concurrent writers after it.
 	// A writer that crashed inside a shard the run was deleting is counted, not judged: the statement is
 	// silent about writes into expired data (and the symptom depends on the interleaving). A crash while
@@ -799,7 +997,7 @@ func (w *c14World) retentionRun(withWriters bool, rep *kit.Report) {
 			}
 		}
 		rep.Count("hw_concurrent_writes_acked", int64(n))
-		w.observe(false, nil, time.Time{}, 0, rep) // the concurrent points must be readable too
+		w.observe(false, false, nil, time.Time{}, 0, rep) // the concurrent points must be readable too
 	}
 }
 
@@ -875,9 +1073,10 @@ func (w *c14World) parts(g *c14Group) c14Parts {
 	return p
 }
 
-// observe runs the oracle after a step. inRun: the step was a retention run; inS: groups the model
-// found expired at that run (instant tRun, duration dRun).
-func (w *c14World) observe(inRun bool, inS map[*c14Group]bool, tRun time.Time, dRun time.Duration, rep *kit.Report) {
+// observe runs the oracle after a step. inRun: the step was a retention run; complete: it was a run
+// without injected catalogue failure (only such a run counts for the removal obligation); inS: groups the
+// model found expired at that run (instant tRun, duration dRun).
+func (w *c14World) observe(inRun, complete bool, inS map[*c14Group]bool, tRun time.Time, dRun time.Duration, rep *kit.Report) {
 	// what the user was told about the duration must be what the catalogue holds
 	if cd := w.rp().Duration; cd != w.dm {
 		w.setFail("alter_not_applied", fmt.Sprintf("the last successful ALTER set duration %s, the catalogue holds %s", w.dm, cd))
@@ -889,7 +1088,7 @@ func (w *c14World) observe(inRun bool, inS map[*c14Group]bool, tRun time.Time, d
 		}
 		p := w.parts(g)
 		// the index of a shard is part of its data (no index, no query): losing it is losing the shard
-		intact := p.CatLive && (!g.Loaded || (p.Eng && p.Data && p.Index && p.IdxCatLive))
+		intact := p.CatLive && (!g.Loaded || (p.Eng && p.Data && p.Index && (p.IdxCatLive || g.IdxBornMarked)))
 		anything := p.CatPresent || (g.Loaded && (p.Eng || p.Data || p.Wal))
 		if !intact && !g.Doomed {
 			if inRun && inS[g] {
@@ -903,8 +1102,8 @@ func (w *c14World) observe(inRun bool, inS map[*c14Group]bool, tRun time.Time, d
 			g.Gone = true
 			continue
 		}
-		if inRun && g.ExpiredRuns >= 2 && anything {
-			w.setFail("expired_shard_not_removed", fmt.Sprintf("%s was expired at %d consecutive retention runs and is still present: %s; %s",
+		if inRun && complete && g.ExpiredRuns >= 2 && anything {
+			w.setFail("expired_shard_not_removed", fmt.Sprintf("%s was expired at %d consecutive fault-free retention runs and is still present: %s; %s",
 				g.name(w), g.ExpiredRuns, c14Present(g, p), w.lastRun))
 			return
 		}
@@ -943,7 +1142,7 @@ func c14Missing(g *c14Group, p c14Parts) string {
 		if !p.Index {
 			s = append(s, "index (engine)")
 		}
-		if !p.IdxCatLive {
+		if !p.IdxCatLive && !g.IdxBornMarked {
 			s = append(s, "index group liveness (catalogue)")
 		}
 	}
@@ -1076,7 +1275,7 @@ func (w *c14World) digest() (exact, abstract string) {
 	}
 	b.WriteString("}idx{")
 	for _, id := range iids {
-		fmt.Fprintf(&b, "i%d,", id)
+		fmt.Fprintf(&b, "i%d d=%s,", id, pt.indexBuilder[id].GetDuration())
 	}
 	b.WriteString("}")
 	pt.mu.RUnlock()
@@ -1088,7 +1287,7 @@ func (w *c14World) digest() (exact, abstract string) {
 	}
 	b.WriteString("}model{")
 	for _, g := range w.groups {
-		fmt.Fprintf(&b, "%s L=%v doomed=%v gone=%v runs=%d pts=%d;", g.name(w), g.Loaded, g.Doomed, g.Gone, g.ExpiredRuns, len(g.Points))
+		fmt.Fprintf(&b, "%s L=%v doomed=%v gone=%v intr=%v runs=%d pts=%d;", g.name(w), g.Loaded, g.Doomed, g.Gone, g.Interrupted, g.ExpiredRuns, len(g.Points))
 	}
 	fmt.Fprintf(&b, "}dm=%s", w.dm)
 	body := b.String()
@@ -1142,8 +1341,8 @@ func (w *c14World) doStep(op string, rep *kit.Report) (changed bool) {
 		w.hist = w.hist[:len(w.hist)-1]
 		return false
 	}
-	if w.fail == nil && op != "H" && op != "Hw" {
-		w.observe(false, nil, time.Time{}, 0, rep)
+	if w.fail == nil && !c14IsRun(op) {
+		w.observe(false, false, nil, time.Time{}, 0, rep)
 	}
 	if w.fail != nil {
 		return true
@@ -1158,7 +1357,7 @@ func (w *c14World) doStep(op string, rep *kit.Report) (changed bool) {
 
 // c14RunCase executes one complete case from scratch (replay, determinism re-check). Returns the failure.
 func c14RunCase(dir string, c c14Case, rep *kit.Report) (*c14Fail, error) {
-	w, err := c14NewWorld(dir, c14DurIndex(c.D0), c.Init)
+	w, err := c14NewWorld(dir, c14DurIndex(c.D0), c.Init, rep)
 	defer func() {
 		if w != nil {
 			w.close()
@@ -1167,7 +1366,7 @@ func c14RunCase(dir string, c c14Case, rep *kit.Report) (*c14Fail, error) {
 	if err != nil {
 		return nil, err
 	}
-	w.observe(false, nil, time.Time{}, 0, rep)
+	w.observe(false, false, nil, time.Time{}, 0, rep)
 	for _, op := range c.Ops {
 		if w.fail != nil {
 			break
@@ -1193,16 +1392,18 @@ type c14Explorer struct {
 	// second phase (longer histories over the core alphabet): transitions of positions < countFrom, and
 	// retention runs at position countFrom, were already executed and counted by the first phase
 	countFrom int
+	// deviation bound: at most maxFaulted retention runs with an injected catalogue failure per history
+	maxFaulted int
 }
 
 // replay builds a fresh world and re-executes path (already validated steps).
 func (x *c14Explorer) replay(path []string) *c14World {
 	x.rep.Count("executions", 1)
-	w, err := c14NewWorld(filepath.Join(x.scratch, "h"), x.d0, x.init)
+	w, err := c14NewWorld(filepath.Join(x.scratch, "h"), x.d0, x.init, x.rep)
 	if err != nil {
 		panic(fmt.Sprintf("C14 harness: cannot build world %s/%s: %v", c14DurNames[x.d0], x.init, err))
 	}
-	w.observe(false, nil, time.Time{}, 0, x.rep)
+	w.observe(false, false, nil, time.Time{}, 0, x.rep)
 	for _, op := range path {
 		if w.fail != nil {
 			break
@@ -1231,31 +1432,84 @@ func (x *c14Explorer) owns(path []string, oi int) bool {
 }
 
 // visit explores every extension of path; w is the live world after path (owned, closed here).
+//
+// Fault variants of the retention run: the number N of catalogue calls the run makes from this state and
+// their methods are taken from the fault-free H executed from the same state in this loop (the recording
+// run); then H!1 .. H!N and the all-of-one-method variants with >= 2 such calls are executed, each on the
+// same state. Where the recording is not at hand (H of this state belongs to another worker) a variant is
+// executed and dropped if its injection did not fire (it was the plain H then).
 func (x *c14Explorer) visit(w *c14World, path []string) {
 	alphabet := x.inner
 	if len(path) == x.maxLen-1 {
 		alphabet = x.last
 	}
+	nCalls := -1 // catalogue calls of the fault-free run from this state; -1: not known yet
+	var byKind map[string]int
+	faultBudget := x.maxFaulted - c14FaultOpsIn(path)
 	for oi, op := range alphabet {
 		if x.stop || x.rep.Expired() {
 			x.stop = true
 			break
 		}
+		plan, isFault := c14ParseFault(op)
+		if isFault {
+			if faultBudget <= 0 {
+				continue
+			}
+			if nCalls >= 0 {
+				switch {
+				case plan.Pos > nCalls:
+					continue
+				case plan.Kind == "*" && nCalls < 2:
+					continue
+				case plan.Kind != "" && plan.Kind != "*" && byKind[plan.Kind] < 2:
+					continue
+				}
+			}
+		}
 		if len(path) == 1 && !x.owns(path, oi) {
 			continue // second operation: subtrees are dealt to the workers
 		}
 		counted := x.owns(path, oi)
-		if len(path) < x.countFrom || (x.countFrom > 0 && len(path) == x.countFrom && (op == "H" || op == "Hw")) {
+		if len(path) < x.countFrom || (x.countFrom > 0 && len(path) == x.countFrom && c14IsRun(op)) {
 			counted = false
 		}
 		if w == nil {
 			w = x.replay(path)
 		}
 		changed := w.doStep(op, x.rep)
+		if op == "H" && w.fail == nil {
+			nCalls, byKind = w.lastCalls, w.lastByKind
+			x.rep.Max("max_catalogue_calls_per_run", int64(nCalls))
+			if nCalls > c14MaxFaultPos {
+				x.rep.Cut(fmt.Sprintf("a retention run made %d catalogue calls, failing positions are enumerated up to %d only", nCalls, c14MaxFaultPos))
+			}
+		}
+		if isFault && w.fail == nil && (w.lastFired == 0 || (plan.Kind != "" && w.lastFired < 2)) {
+			// the variant does not exist in this state: the run was the plain H (or the positional variant)
+			x.rep.Count("fault_variants_executed_but_not_applicable", 1)
+			if plan.Pos > 0 && (nCalls < 0 || plan.Pos-1 < nCalls) {
+				nCalls = plan.Pos - 1
+				if byKind == nil {
+					byKind = map[string]int{} // unknown: the method variants are tried by execution
+					for _, ck := range c14CallKinds {
+						byKind[ck.Method] = 2
+					}
+				}
+			}
+			if changed {
+				w.close()
+				w = nil
+			}
+			continue
+		}
 		if counted {
 			x.rep.Eval(1)
 			x.rep.Count("transitions", 1)
 			x.rep.Count("traces_validated_against_impl", 1)
+			if isFault {
+				x.countFault(w, plan, changed)
+			}
 		}
 		if w.fail != nil {
 			x.report(w, append(append([]string{}, path...), op))
@@ -1270,7 +1524,7 @@ func (x *c14Explorer) visit(w *c14World, path []string) {
 			continue // same state: the live world serves the next sibling
 		}
 		if counted {
-			if op == "H" || op == "Hw" {
+			if c14IsRun(op) {
 				x.rep.Count("retention_runs", 1)
 			}
 			_, abs := w.digest()
@@ -1289,6 +1543,31 @@ func (x *c14Explorer) visit(w *c14World, path []string) {
 	}
 	if w != nil {
 		w.close()
+	}
+}
+
+// countFault: evidence counters of one faulted retention run (a counted transition).
+func (x *c14Explorer) countFault(w *c14World, plan c14FaultPlan, changed bool) {
+	x.rep.Count("faulted_runs", 1)
+	if changed {
+		x.rep.Count("faulted_runs_state_changing", 1)
+	}
+	if !w.rec.called {
+		x.rep.Count("faulted_runs_ended_before_expiry_evaluation", 1)
+	} else if len(w.rec.dels) > 0 {
+		x.rep.Count("faulted_runs_that_went_on_to_delete", 1)
+	}
+	if plan.Pos > 0 {
+		x.rep.Max("max_fault_position", int64(plan.Pos))
+		for i, c := range w.mc.calls {
+			if c.Failed { // a distinct failing call position = (position in the run, method)
+				x.rep.Count(fmt.Sprintf("fault_site_%02d_%s", i+1, c.Method), 1)
+				x.rep.Count("fault_call_"+c.Method, 1)
+			}
+		}
+	} else {
+		x.rep.Count("faulted_runs_every_call_of_one_method", 1)
+		x.rep.Count("fault_method_"+strings.ReplaceAll(plan.Kind, "*", "ALL"), 1)
 	}
 }
 
@@ -1330,7 +1609,7 @@ func (x *c14Explorer) report(w *c14World, ops []string) {
 func c14Table(rep *kit.Report, scratch string) {
 	durs := []time.Duration{0, 1, c14G / 2, c14G, 2 * c14G, 3 * c14G}
 	dir := filepath.Join(scratch, "table")
-	w, err := c14NewWorld(dir, 0, "open")
+	w, err := c14NewWorld(dir, 0, "open", rep)
 	if err != nil {
 		panic(fmt.Sprintf("C14 harness: table world: %v", err))
 	}
@@ -1454,10 +1733,20 @@ func c14Main(t *testing.T, rep *kit.Report) {
 	if d := kit.Getenv("VERIF_DEPTH", ""); d != "" {
 		fmt.Sscanf(d, "%d", &maxLen)
 	}
+	maxFaulted := 1
+	if kit.Thorough() {
+		maxFaulted = 2
+	}
+	if d := kit.Getenv("VERIF_C14_FAULTED_RUNS", ""); d != "" {
+		fmt.Sscanf(d, "%d", &maxFaulted)
+	}
+	lastOps := append([]string{"H", "Hw"}, c14FaultOps...)
 	rep.Count("max_depth", 0)
 	rep.Max("max_depth", int64(maxLen))
-	rep.Note("alphabet=%v; histories: every sequence of <= %d operations followed by a retention run (H or Hw), oracle after every step; roots: initial duration {G,2G,0} x first shard {open, not loaded}; G=%s interval=%s",
-		c14Ops, maxLen-1, c14G, c14Interval)
+	rep.Count("max_faulted_runs_per_history", 0)
+	rep.Max("max_faulted_runs_per_history", int64(maxFaulted))
+	rep.Note("alphabet=%v + fault variants of H: H!k (the k-th catalogue call of the run fails, k = 1..number of calls the run makes, cap %d), H!S/H!I/H!DSG/H!DIG/H!PG (every call of one MetaClient method fails), H!* (every call fails); at most %d faulted runs per history; histories: every sequence of <= %d operations followed by a retention run (H, Hw or a fault variant), oracle after every step; roots: initial duration {G,2G,0} x first shard {open, not loaded}; G=%s interval=%s",
+		c14BaseOps, c14MaxFaultPos, maxFaulted, maxLen-1, c14G, c14Interval)
 	if kit.Mine(0) {
 		c14Table(rep, scratch)
 	}
@@ -1473,8 +1762,8 @@ func c14Main(t *testing.T, rep *kit.Report) {
 	item := 0
 	for _, d0 := range []int{2, 3, 0} {
 		for _, init := range []string{"open", "cat"} {
-			x := &c14Explorer{rep: rep, scratch: scratch, maxLen: maxLen, inner: c14Ops, last: []string{"H", "Hw"},
-				d0: d0, init: init, failed: map[string]bool{}, itemBase: item}
+			x := &c14Explorer{rep: rep, scratch: scratch, maxLen: maxLen, inner: c14Ops, last: lastOps,
+				d0: d0, init: init, failed: map[string]bool{}, itemBase: item, maxFaulted: maxFaulted}
 			item += len(c14Ops) * len(c14Ops)
 			x.visit(nil, nil)
 			if x.stop {
